@@ -1,12 +1,14 @@
 #!/bin/bash
-# regress_seeded.sh [name-filter]: for every archived seeded change, apply its patch on a fresh worktree of /repo HEAD
+# regress_seeded.sh [names...]: for every archived seeded change, apply its patch on a fresh worktree of /repo HEAD
 # (outside /repo and /verif), run the property's quick check against it and expect exit 1 with a VIOLATION line.
 # Writes /tmp/regress_seeded.out ; the worktree is removed after each run.
 cd /verif
 out=/tmp/regress_seeded.out
 : > $out
-for d in seeded/*${1}*/; do
-  name=$(basename $d)
+names="$@"
+[ -z "$names" ] && names=$(ls seeded)
+for name in $names; do
+  d=seeded/$name/
   id=$(python3 -c "import json;print(json.load(open('$d/meta.json'))['property'])")
   wt=/tmp/regr_$name
   git -C /repo worktree remove --force $wt 2>/dev/null
